@@ -322,6 +322,16 @@ func (s *IndexedState) add(ctx *Context, id string, x Map) (string, []byte, erro
 	if err != nil {
 		return id, nil, err
 	}
+	// A stored fact that has expired is gone.  Purge it (and what
+	// depends on it) now: otherwise whoever comes across it half-way
+	// through (the add hook looks at the stored fact) purges it then,
+	// and with it what has already been done for the new fact.
+	if old, have := s.IdToFact[id]; have {
+		if _, err = s.expire(ctx, id, old, 0); err != nil {
+			return id, nil, err
+		}
+	}
+
 	// If we are overwriting a rule, remove the patterns of the
 	// stored rule (not those of the new one) from the rule index.
 	// Otherwise the old patterns would keep pointing at this id.
